@@ -15,7 +15,10 @@ fn contains(h: &[u8], n: &[u8]) -> bool {
 }
 
 pub fn generate(seed: u64, tier: &str, sink: &mut Sink) {
-    generate_sel(seed, tier, sink, false)
+    generate_sel(seed, tier, sink, false);
+    // "after success the TLS session is verified against the origin's name": real handshakes through the
+    // in-process CONNECT proxy of C14's matrix (seed C12-seed9: a TLS connector remembered per thread)
+    crate::p_c14::generate_sel(seed, tier, sink, true);
 }
 
 /// `only_refusal_bodies`: just the refusal bodies around and far beyond the cap (used by C05)
